@@ -95,9 +95,9 @@ func TmpRoot() string {
 }
 
 // LoadProject writes the specs as YAML into dir and loads them through the production loader.
-func LoadProject(dir string, procs []ProcSpec, strict bool, logLength int) (*types.Project, error) {
+func LoadProject(dir string, procs []ProcSpec, strict bool, logLength int, top ...string) (*types.Project, error) {
 	f := filepath.Join(dir, "pc.yaml")
-	if err := os.WriteFile(f, []byte(YAML(procs, strict, logLength)), 0o644); err != nil {
+	if err := os.WriteFile(f, []byte(YAML(procs, strict, logLength, top...)), 0o644); err != nil {
 		return nil, err
 	}
 	opts := &loader.LoaderOptions{FileNames: []string{f}, IsInternalLoader: true}
@@ -118,7 +118,7 @@ func Begin(s *Scenario) (*Exec, error) {
 	}
 	e.unit = time.Duration(unit) * time.Millisecond
 	e.H.UnitMs = unit
-	project, err := LoadProject(dir, s.Procs, s.Strict, s.LogLength)
+	project, err := LoadProject(dir, s.Procs, s.Strict, s.LogLength, s.Top)
 	if err != nil {
 		e.H.LoadErr = err.Error()
 		os.RemoveAll(dir)
@@ -383,7 +383,7 @@ func (e *Exec) apply(st Step) bool {
 		if err != nil {
 			return false
 		}
-		prj, err := LoadProject(d, st.Procs, e.Sc.Strict, e.Sc.LogLength)
+		prj, err := LoadProject(d, st.Procs, e.Sc.Strict, e.Sc.LogLength, e.Sc.Top)
 		if err != nil {
 			e.W.Record(world.Event{Kind: world.EvMark, Text: "update-load-error " + err.Error()})
 			return false
@@ -477,18 +477,22 @@ func (e *Exec) Finish() *History {
 			return e.Sc.FinishCodes[i%len(e.Sc.FinishCodes)]
 		}
 		k := 0
-		for round := 0; round < 40 && e.H.Busy == ""; round++ {
+		rounds := e.Sc.FinishRounds
+		if rounds <= 0 {
+			rounds = 3
+		}
+		for round := 0; round < rounds+40 && e.H.Busy == ""; round++ {
 			e.W.ReleaseAllHolds()
 			live := e.W.LiveCmds("")
 			if len(live) == 0 && e.RunReturned() && e.Outstanding() == 0 {
 				break
 			}
-			if round == 3 && !e.ShutdownSeen {
+			if round == rounds && !e.ShutdownSeen {
 				e.Do(Step{Op: OpShutdown})
 				continue
 			}
 			if len(live) == 0 {
-				if round > 3 {
+				if round > rounds {
 					break
 				}
 				e.settleAndSnap(false)
